@@ -113,8 +113,9 @@ def execute(world, opsource, fault, want_lines=False):
         try:
             with sess.wl:
                 i = 0
+                view = RobotView(robot, sess)
                 while True:
-                    nxt = opsource(i, sess)
+                    nxt = opsource(i, view)
                     if nxt is None:
                         break
                     op, terminal = nxt
@@ -223,6 +224,30 @@ def execute(world, opsource, fault, want_lines=False):
     return res
 
 
+class RobotView:
+    """What the generator aims at: the volumes the *records* have produced (the robot's wells), not the twin's.
+    On a correct library both agree up to printed rounding; if the twin has been corrupted (NaN, a lost
+    booking) the aimed rejections still go for what is physically in the wells."""
+
+    def __init__(self, robot, sess):
+        self.robot = robot
+        self.sess = sess
+        self.geos = sess.geos
+
+    def volumes(self, i):
+        lab = self.robot.labs[self.sess.geos[i].name]
+        tv = self.sess.volumes(i)
+        out = {}
+        for w, v in lab.vol.items():
+            # fall back to the twin for wells the robot lost track of (undecodable records)
+            out[w] = float(v) if not self.robot_lost else tv[w]
+        return out
+
+    @property
+    def robot_lost(self):
+        return self.robot.decode_errors > 0
+
+
 def diverged(robot, sess):
     """robot volumes != twin volumes beyond the per-record rounding slack (attribution only)."""
     for i, g in enumerate(sess.geos):
@@ -328,6 +353,10 @@ class Program:
         rng = self.rng
         if i < self.n_prefix:
             r = rng.random()
+            if r < 0.04:
+                # an invalid call in the middle: on a correct library it raises and thereby becomes the terminal
+                # fault; a library that lets it through silently carries on with whatever state it left
+                return self.gen.gen_invalid(sess), False
             if r < 0.2:
                 return self.gen.gen_misc(), False
             if r < 0.24:
